@@ -8,7 +8,7 @@ from feoxlint import analysis as A
 from feoxlint import rulekit as R
 from feoxlint import vocab as V
 from feoxlint.model import path_matches, call_matches
-from rules.common import edge_targets, origin_names, names_of, err_edge_unreachable
+from rules.common import edge_targets, origin_names, names_of, err_edge_unreachable, drop_impl
 
 EXPLANATION = """
 Clause (a) as path facts over the open path (with_config_and_open_mode, open_device, open_fresh_device,
@@ -41,6 +41,46 @@ ASSUMPTIONS = ["FreeSpaceManager::initialize / set_device_size are in-memory onl
 OPEN_BODIES = ["FeoxStore::with_config_and_open_mode", "FeoxStore::open_device", "FeoxStore::open_device_read_only",
                "FeoxStore::open_fresh_device", "FeoxStore::initialize_fresh_device", "FeoxStore::attach_device_file",
                "FeoxStore::load_indexes", "FeoxStore::scan_and_rebuild_indexes", "FeoxStore::remove_expired_recovery_winners"]
+
+
+def check_drop_nowrite(ctx):
+    """a rejected file stays byte-identical also when the half-built store is dropped: `initialized` is set only at the end of a
+    successful open, and it is the one thing that keeps FeoxStore::drop (and flush_all) of a store whose open failed after the
+    device was attached from writing a fresh metadata block into the file it has just refused. Every device-write-reaching call
+    of the destructor other than the worker shutdown (workers exist only after a successful load_indexes: C17.nowrite) is reached
+    only through `initialized == true` - directly, or inside the FeoxStore helper it calls."""
+    inst = "C17.nowrite/drop"
+    def init_true(b):
+        return A.pred_edges(b, lambda e: e.k == "field" and e.extra[1] == "initialized" and (e.extra[0] or "").endswith("FeoxStore"), "true")
+    def unguarded(b, depth=0):
+        """write-reaching sites of b not behind initialized == true (looking one helper level down)"""
+        out = []
+        edges = init_true(b)
+        for n in V.W_REACHING(b):
+            ev = b.nodes[n].ev
+            if any(call_matches(ev, w) for w in ("WriteBuffer::initiate_shutdown", "WriteBuffer::finish_shutdown", "WriteBuffer::complete_shutdown", "TtlSweeper::stop")):
+                continue
+            if edges:
+                r, ps = A.reach(b, [b.entry], blocked_edges=frozenset(edges))
+                if n not in r:
+                    continue        # reachable only through an initialized == true edge
+            ts = [t for t in ctx.prog.targets(ev) if t and t in ctx.prog.bodies and "FeoxStore" in t]
+            if ts and depth < 2 and all(not unguarded(ctx.prog.bodies[t], depth + 1) for t in ts):
+                continue            # the helper guards its own writes
+            out.append(n)
+        return out
+    for nm, b in (("drop", drop_impl(ctx, inst, "FeoxStore")), ("flush_all", ctx.fn("FeoxStore::flush_all", inst))):
+        if b is None:
+            continue
+        ws = V.W_REACHING(b)
+        ctx.check(len(ws) >= 1, inst, "anchor", b.path, "device-write-reaching calls in %s (>= 1, found %d)" % (nm, len(ws)), None)
+        bad = unguarded(b)
+        for n in bad:
+            ctx.fail(inst, "GUARD", b.path, "a store that never finished opening (initialized == false) writes to the device it rejected", b.where(n))
+        if not bad:
+            ctx.ok(inst, "GUARD", b.path, "every device write of %s is behind `initialized`" % nm, b.where(ws[0]) if ws else None)
+    # who sets the flag: the constructor literal (memory-only stores) and the end of a successful open
+    R.fieldw_within(ctx, inst + "/flag", "FeoxStore", "initialized", ["FeoxStore::with_config_and_open_mode", "FeoxStore::new_store", "init::"], floor=1)
 
 
 def check_nowrite(ctx):
@@ -351,6 +391,7 @@ def check_bounds(ctx):
 
 def check(ctx):
     check_nowrite(ctx)
+    check_drop_nowrite(ctx)
     check_zero(ctx)
     check_validate(ctx)
     check_panics(ctx)
